@@ -9,7 +9,7 @@ EXPLANATION = (
     "[SEND-ORDER] the loop iterates the list returned by _encode_impl directly and writes its loop variable; drain follows write. "
     "[SEND-RAISES] the explicit-raise set of every _encode_impl implementation, closed over the resolved call graph (encoder, dynamic "
     "per-PGN functions correlated per PGN group), is contained in the types the log-and-drop handler catches, and that handler touches "
-    "neither state nor connection; anything else would reach the generic handler = connection-loss path. UNDECIDED: transport flow "
+    "neither state nor connection; anything else would reach the generic handler = connection-loss path. [SEND-TYPES] every _encode_impl returns the result of an encoder method annotated -> list[bytes]. UNDECIDED: transport flow "
     "control itself, implicit exceptions (AttributeError on malformed message objects)."
 )
 ASSUMPTIONS = ["CPython ast parser", "asyncio: tasks interleave only at a suspending await", "asyncio.Lock gives mutual exclusion between coroutines",
@@ -17,6 +17,7 @@ ASSUMPTIONS = ["CPython ast parser", "asyncio: tasks interleave only at a suspen
 
 def run(chk, program, tier):
     for r, t in (('SEND-ATOMIC', 'writes of one message in one atomic section'), ('SEND-ENCODE-FIRST', 'encode dominates first write'),
-                 ('SEND-ORDER', 'packets written in list order'), ('SEND-RAISES', 'unsendable message -> log and drop only')):
+                 ('SEND-ORDER', 'packets written in list order'), ('SEND-RAISES', 'unsendable message -> log and drop only'), ('SEND-TYPES', 'what reaches writer.write is bytes')):
         chk.rule(r, t)
     K.send_rules(chk, program)
+    K.send_types(chk, program)
